@@ -6,7 +6,7 @@
 From Coq Require Import ZArith List Bool Arith Lia Sorted.
 From ADV Require Import Base.Fl C01.Model C10.Gen C10.Model C10.Spec C10.ProofsViews
   C11.Model C11.Spec C11.Dense C11.ProofsShare
-  C12.Spec C12.ModelS C12.ModelM C12.ProofsSWExample C12.ProofsS C12.ProofsClone C12.ProofsSW C12.ProofsM C12.ProofsV.
+  C12.Spec C12.ModelS C12.ModelM C12.ModelH C12.ProofsSWExample C12.ProofsS C12.ProofsClone C12.ProofsSW C12.ProofsM C12.ProofsV C12.ProofsH.
 Import ListNotations.
 Open Scope nat_scope.
 
@@ -206,3 +206,71 @@ Theorem sparse_iteration_changes_representation :
   let h := [0; 5]%Z in let v := {| vals := [(1, 0%nat); (3, 1%nat)]%Z; idx := [1; 3]%Z; dim := 4%Z |} in
   Inv v /\ exists v1 s, iterate h v = Some (v1, s) /\ idx v1 = [3%Z] /\ vals v1 = [(3%Z, 1%nat)] /\ abs h v1 = abs h v.
 Proof. exact iterate_changes_representation. Qed.
+
+(* ====================================================================== HISTORIES with a persistent InSitu struct *)
+(* Round 2.  The algorithm packages take a POINTER to the caller's InSitu struct and store what they allocate in it;
+   callers (newton.go) reuse the struct for the next input.  What the struct references after call k is written by
+   call k+1.  Abstract heap model (any content type V), the struct = the list of locations it references, a call =
+   an ARBITRARY state transformer; between calls the caller creates inputs (HNew), creates buffers and puts them in
+   the struct (HBuf), passes one of his own objects as buffer (HPass: opt-in to in-place work), or starts over with
+   an empty struct (HFresh).  Frame conditions of one call ([body_ok]):
+     F1  it writes only locations the struct referenced before the call, and what it allocates itself;
+     F2  it stores NO reference to a pre-existing object into the struct: footprint(struct after) is contained in
+         footprint(struct before) + new allocations — in particular disjoint from every input the caller did not pass
+         as a buffer himself.
+   (5) Under F1 + F2 for every call, ANY history leaves EVERY object the caller holds — the inputs of ALL earlier
+   calls and every returned object that does not alias the struct — exactly as it was when he obtained it. *)
+Theorem history_inputs_unchanged : forall (V : Type) (evs1 evs2 : list (hev V)) (sp : hst V * list nat),
+  HInv sp -> evs_ok sp (evs1 ++ evs2) ->
+  forall l, In l (snd (hrun sp evs1)) -> In l (snd (hrun sp (evs1 ++ evs2))) ->
+  hs_heap (fst (hrun sp (evs1 ++ evs2))) l = hs_heap (fst (hrun sp evs1)) l.
+Proof. intros V. exact (@history_frame V). Qed.
+(* ... and after every history the struct references nothing the caller holds (what the harness observes through
+   storage identity after every call) *)
+Theorem history_struct_retains_nothing : forall (V : Type) (evs : list (hev V)) (sp : hst V * list nat),
+  HInv sp -> evs_ok sp evs -> forall l, In l (snd (hrun sp evs)) -> ~ In l (hs_refs (fst (hrun sp evs))).
+Proof. intros V. exact (@history_no_retained_reference V). Qed.
+Theorem history_starts_anywhere : forall (V : Type) (h : nat -> V), HInv (mkHS h 0 [], []).
+Proof. intros V. exact (@HInv_init V). Qed.
+(* the hypotheses are satisfiable by the code of /repo (clone into a new location kept in the struct, then in-place
+   work on it): two calls on one struct, both inputs kept, the struct references only the clone *)
+Example history_clone_nontrivial :
+  let evs := [HNew 1%Z; HCall (b_clone Z.succ) [0]; HNew 2%Z; HCall (b_clone Z.succ) [2]] in
+  let sp := hrun (mkHS (fun _ => 0%Z) 0 [], []) evs in
+  evs_ok (mkHS (fun _ => 0%Z) 0 [], []) evs /\ In 0 (snd sp) /\ In 2 (snd sp) /\
+  hs_heap (fst sp) 0 = 1%Z /\ hs_heap (fst sp) 2 = 2%Z /\ hs_heap (fst sp) 1 = 3%Z /\ hs_refs (fst sp) = [1].
+Proof. exact clone_history_example. Qed.
+Theorem clone_wrapper_satisfies_frame : forall (V : Type) (f : V -> V) args (s : hst V),
+  (forall l, In l (hs_refs s) -> l < hs_next s) -> body_ok (b_clone f) args s.
+Proof. intros V. exact (@b_clone_ok V). Qed.
+(* F2 is NECESSARY (the seeded regression `inSitu.H = a`): a call that writes nothing at all but retains its
+   argument in the struct violates F2 and only F2, and the NEXT call (which writes only struct buffers) destroys the
+   first call's input: location 0 held 1 after call 1 and holds 9 after call 2 *)
+Theorem retained_reference_breaks_history_refuted :
+  let evs := [HNew 1%Z; HCall b_retain [0]; HNew 2%Z; HCall (b_scribble 9%Z) [1]] in
+  let sp := hrun (mkHS (fun _ => 0%Z) 0 [], []) evs in
+  In 0 (snd sp) /\ hs_heap (fst sp) 0 = 9%Z /\
+  hs_heap (fst (hrun (mkHS (fun _ => 0%Z) 0 [], []) [HNew 1%Z; HCall b_retain [0]])) 0 = 1%Z /\
+  ~ body_ok b_retain [0] (fst (hrun (mkHS (fun _ => 0%Z) 0 [], []) [HNew 1%Z])).
+Proof. exact retained_reference_refuted. Qed.
+
+(* (5') the concrete wrapper over C10's storage heap with the buffer kept in the caller's struct across calls
+   (qrAlgorithm.Run / svd.Run / hessenbergReduction.Run ...: clone when the struct is empty, else Set when asked to
+   initialise, then ANY body that writes only its work matrix): ANY number of calls with ANY inputs and flags leaves
+   every storage that existed at the start unchanged, except the buffer the caller supplied himself *)
+Theorem entry_history_writes_only_the_callers_buffer : forall real body, body_frames body -> forall calls H buf H' buf',
+  entry_seq (entry_p real body) H buf calls = ROk (H', buf') ->
+  forall l, (l < length H)%nat -> (forall b, buf = Some b -> l <> d_values b) -> store_of H' l = store_of H l.
+Proof. exact entry_seq_frame. Qed.
+(* the seeded regression on the concrete heap: first call with a body that leaves its matrix alone (the symmetric path:
+   the tridiagonalisation works on its own copy), second call InitializeH = true: storage 0 = the FIRST input is
+   overwritten with the second input; the code of /repo keeps it *)
+Theorem entry_retain_overwrites_first_input_refuted :
+  let H0 : C10.Model.heap := [[1;2;3;4]; [5;6;7;8]]%Z in
+  let a1 := new_mat 0 2 2 in let a2 := new_mat 1 2 2 in
+  let body := fun (H : C10.Model.heap) (_ : mat) => ROk H in
+  (exists H' b, entry_seq (entry_p_retain false body) H0 None [(true, a1); (true, a2)] = ROk (H', b) /\
+                store_of H' 0 = [5;6;7;8]%Z) /\
+  (exists H' b, entry_seq (entry_p false body) H0 None [(true, a1); (true, a2)] = ROk (H', b) /\
+                store_of H' 0 = [1;2;3;4]%Z /\ store_of H' 2 = [5;6;7;8]%Z).
+Proof. exact entry_retain_refuted. Qed.
